@@ -14,19 +14,24 @@ namespace Probes
 
 open Gen
 
-/-- the model's dispatch agrees with every probe of the given list -/
-def csiOk (ps : List (Nat × List Nat × Bool × List Call)) : Bool :=
-  ps.all fun p => decide (csiDispatch p.1 p.2.1 p.2.2.1 = p.2.2.2)
+/-- the model's dispatch agrees with every probe of the given list (the calls made) -/
+def csiOk (ps : List (Nat × List Nat × Bool × List Call × Nat)) : Bool :=
+  ps.all fun p => decide (csiDispatch p.1 p.2.1 p.2.2.1 = p.2.2.2.1)
 
-def escOk (ps : List (Nat × List Nat × Bool × List Call)) : Bool :=
-  ps.all fun p => decide (escapeDispatch p.1 = p.2.2.2)
+/-- the `private` argument that ED / EL / DA received in every probe is the documented one
+    (`csiPrivateArg`: 0 = no such call, 1 = `None`, 3 = `Some(true)`) -/
+def csiPrivOk (ps : List (Nat × List Nat × Bool × List Call × Nat)) : Bool :=
+  ps.all fun p => decide (csiPrivateArg p.1 p.2.2.1 = p.2.2.2.2)
 
-def basicOk (ps : List (Nat × List Nat × Bool × List Call)) : Bool :=
-  ps.all fun p => decide (basicDispatch p.1 = p.2.2.2)
+def escOk (ps : List (Nat × List Nat × Bool × List Call × Nat)) : Bool :=
+  ps.all fun p => decide (escapeDispatch p.1 = p.2.2.2.1)
+
+def basicOk (ps : List (Nat × List Nat × Bool × List Call × Nat)) : Bool :=
+  ps.all fun p => decide (basicDispatch p.1 = p.2.2.2.1)
 
 /-- the probes whose final character is one of the given one-character constants -/
-def slice (ps : List (Nat × List Nat × Bool × List Call)) (finals : List (List Nat)) :
-    List (Nat × List Nat × Bool × List Call) :=
+def slice (ps : List (Nat × List Nat × Bool × List Call × Nat)) (finals : List (List Nat)) :
+    List (Nat × List Nat × Bool × List Call × Nat) :=
   ps.filter fun p => finals.contains [p.1]
 
 end Probes
